@@ -242,7 +242,9 @@ def attenuated(x, secs, suspect, fail, test_period=None, min_obs=None, min_perio
 
     def verdict(spread):
         nonlocal skipped
-        if abs(spread - suspect) < eps or abs(spread - fail) < eps:
+        # a std within rounding distance of a threshold is excluded by the statement; max-min of
+        # dyadic values is exact, so equality is judged for 'range'
+        if check_type == "std" and (abs(spread - suspect) < eps or abs(spread - fail) < eps):
             skipped += 1
             return ANY
         if spread < fail:
